@@ -5,6 +5,7 @@
 import ChalkModel.Wire
 import ChalkModel.Shift
 import ChalkModel.Flags
+import ChalkModel.OpsMatch
 
 namespace Chalk
 open Sexp
@@ -48,6 +49,9 @@ def opsIR : Sexp → Option Sexp
 
 def dispatch (req : Sexp) : Sexp :=
   match opsIR req with
+  | some r => r
+  | none =>
+  match opsMatch req with
   | some r => r
   | none => badOp
 
